@@ -353,7 +353,7 @@ func (w *World) MCache(rec *ScanRecord) []Violation {
 		}
 	}
 	if diff != "" {
-		for _, prop := range []string{"C08", "C11", "C13", "C15"} {
+		for _, prop := range []string{"C03", "C06", "C08", "C11", "C13", "C15", "C20"} {
 			out = append(out, viol(prop, "informer-cache-object-mutated", "the scan modified an object of the informer cache: %s", diff))
 		}
 	}
@@ -1268,6 +1268,15 @@ func (w *World) M15(rec *ScanRecord) []Violation {
 			if sig, msg := PreciseWrite(e.Before, e.Sent, notBefore, e.T, eff); sig != "" {
 				out = append(out, viol("C15", sig, "update of %s: %s", e.Node, msg))
 			}
+			// an update that rolls back what somebody else wrote in the meantime (lost update)
+			if e.Before != nil && e.Sent != nil {
+				if e.Before.Spec.Unschedulable && !e.Sent.Spec.Unschedulable {
+					out = append(out, viol("C09", "write-uncordons-node", "update of %s: the stored node is cordoned, the object sent is not", e.Node))
+				}
+				if ref.NoDelete(e.Before) && !ref.NoDelete(e.Sent) {
+					out = append(out, viol("C10", "write-drops-no-delete-annotation", "update of %s: the stored node carries the no-delete annotation, the object sent does not", e.Node))
+				}
+			}
 		}
 	}
 	return out
@@ -1323,6 +1332,30 @@ func (w *World) M19(rec *ScanRecord) []Violation {
 					}
 				}
 				calls = nil
+			}
+		}
+	}
+	// capacity is only ever reduced by terminating the instances of the chosen nodes: lowering the
+	// desired capacity lets the cloud pick the victim (it may be a protected, busy or untainted node)
+	staleDescription := false // after a failed refresh the provider works from an older description
+	for _, e := range rec.Prelude {
+		if e.Injected {
+			staleDescription = true
+		}
+	}
+	for _, gr := range rec.Groups {
+		for _, e := range gr.Seg {
+			if e.Kind == sim.ASetDesired && e.OK() && e.Value < e.PreDesired && !staleDescription {
+				props := []string{"C01", "C17", "C19"}
+				for _, n := range gr.GV.Nodes {
+					if ref.NoDelete(n) {
+						props = append(props, "C10")
+						break
+					}
+				}
+				for _, p := range props {
+					out = append(out, viol(p, "untargeted-scale-in", "group %d: SetDesiredCapacity(%d) below the real desired capacity %d: the cloud chooses which instance goes", gr.G, e.Value, e.PreDesired))
+				}
 			}
 		}
 	}
@@ -1391,6 +1424,7 @@ func (w *World) M19(rec *ScanRecord) []Violation {
 			if allMembers {
 				out = append(out, viol("C19", "member-reported-not-in-group", "group %d: DeleteNodes(%v) answered not-in-group although every node's instance is a member of %s", gr.G, e.Names, snap.Name))
 				out = append(out, viol("C12", "member-reported-not-in-group", "group %d: DeleteNodes(%v) answered not-in-group although every node's instance is a member of %s; the scan stops and later groups are not processed", gr.G, e.Names, snap.Name))
+				out = append(out, viol("C20", "member-reported-not-in-group", "group %d: DeleteNodes(%v) answered not-in-group although every node's instance is a member of %s; the controller stops without the documented condition", gr.G, e.Names, snap.Name))
 			}
 		}
 	}
